@@ -80,6 +80,8 @@ def run(rep, ctx, tier):
         if ("FIELD", LCOMB, "terms") in g.fwd:
             R1D.run_values(rep, ctx, a, "R1d", role="coefficients", what="coefficient of an equation term",
                            starts=[("FIELD", LCOMB, "terms")])
+        # no coefficient enters the decision only as "the first match" / "the last one" of its kind
+        R1D.run_last_value(rep, ctx, a, "R1L")
         from ..rules import overwrite as R5O
         R5O.run(rep, ctx, a, ("FIELD", LCOMB, "terms"), "R5o")
         from ..rules import dedup as R5K
